@@ -10,7 +10,8 @@ more data follows; `sidNext` is reserved *before* `sidFirst`), `Rock::SwapDir::r
 write (a byte prefix of the new slot image over the old one), the restart (`Rock.rebuild`, the C57 model, on the image)
 and the lookups afterwards (`Rock.Crash.serve` per position and the whole-image map side by side).
 
-Every slot image written is a `Rock.Crash.txnCells` cell: the theorems of Properties/C16 talk about exactly these writes.
+Every completed swap-out is compared with `Rock.Crash.txnCells` of the slots it reserved (`sameAsTxn`, reported as `txn=ok`):
+the theorems of Properties/C16 talk about exactly these writes.
 -/
 import SquidModel.Rock.CrashModel
 import SquidModel.Rock.Final
@@ -85,6 +86,8 @@ structure Sim where
   torn : Nat := 0
   dead : Bool := false
   trace : List String := []
+  /-- every completed swap-out left exactly the cells `txnCells` describes -/
+  txnOk : Bool := true
 
 def cfgOf (s : Sim) : Cfg := currentCfg s.slotSize false
 
@@ -152,9 +155,17 @@ def pieceSizes (cap : Nat) : Nat → Nat → List Nat
   | 0, _ => []
   | fuel + 1, total => if total ≤ cap then [total] else cap :: pieceSizes cap fuel (total - cap)
 
+/-- the cells of the slots `slots` on the simulated disk are the `txnCells` of the swap-out that reserved them -/
+def sameAsTxn (s : Sim) (key : Key) (slots : List Int) (sizes : List Nat) : Bool :=
+  let t : Txn := { id := 0, key := key, version := 1, parts := slots.zip sizes, metaSfs := 0, metaFlags := 1088, metaHdr := s.metaHdr }
+  (txnCells t).all (fun c =>
+    match s.disk.find? (fun d => d.slot == c.slot) with
+    | some d => d.hdr == c.hdr && d.md == c.md && d.url == c.url
+    | none => false)
+
 /-- the writes of one swap-out, slot by slot (`tryWrite` + `writeToDisk` + `close(wroteAll)`); `first`/`cur` are the
     reserved slots, `done` the slots already written -/
-def writePieces (ki ver : Nat) (f : Nat) (total : Nat) : Nat → Sim → Int → Int → List Int → Nat → List Nat → Sim
+def writePieces (ki ver : Nat) (f : Nat) (total : Nat) (sizes : List Nat) : Nat → Sim → Int → Int → List Int → Nat → List Nat → Sim
   | 0, s, _, _, _, _, _ => s
   | _, s, _, _, _, _, [] => s
   | fuel + 1, s, first, cur, done, idx, p :: rest =>
@@ -184,8 +195,9 @@ def writePieces (ki ver : Nat) (f : Nat) (total : Nat) : Nat → Sim → Int →
     if s3.dead then s3
     else if rest.isEmpty then
       -- handleWriteCompletionSuccess with eof: the entry becomes readable
-      { s3 with map := { fileno := f, key := keyOf (keyIndexOf ki), chain := done ++ [cur'] } :: s3.map.filter (fun e => e.fileno != f) }
-    else writePieces ki ver f total fuel s3 first' nxt (done ++ [cur']) (idx + 1) rest
+      { s3 with map := { fileno := f, key := keyOf (keyIndexOf ki), chain := done ++ [cur'] } :: s3.map.filter (fun e => e.fileno != f),
+                txnOk := s3.txnOk && sameAsTxn s3 (keyOf (keyIndexOf ki)) (done ++ [cur']) sizes }
+    else writePieces ki ver f total sizes fuel s3 first' nxt (done ++ [cur']) (idx + 1) rest
 
 /-- a swap-out of version `ver` (body `n` bytes) of key index `ki` -/
 def storeObj (s : Sim) (ki ver n : Nat) : Sim :=
@@ -196,7 +208,8 @@ def storeObj (s : Sim) (ki ver n : Nat) : Sim :=
   let s1 := freeAt s f
   let total := s.h + n
   let cap := s.slotSize - 40
-  writePieces ki ver f total (s.nslots + 2) s1 (-1) (-1) [] 0 (pieceSizes cap (s.nslots + 2) total)
+  let sizes := pieceSizes cap (s.nslots + 2) total
+  writePieces ki ver f total sizes (s.nslots + 2) s1 (-1) (-1) [] 0 sizes
 
 def lookup1 (s : Sim) (ki : Nat) : Option (List Int) :=
   let g := (cfgOf s).geo s.nslots
@@ -322,6 +335,6 @@ def scenario (slotSize h metaHdr nk : Nat) (phases : List String) : String :=
         let (s2, _) := runOps s1 [.store 100 9000, .store 101 13000]
         let p2 := keys.map (fun k => probe s2 k)
         let px := [probe s2 100, probe s2 101]
-        " | ".intercalate (acc ++ [s!"final {" ".intercalate p1} ; {" ".intercalate p2} ; {" ".intercalate px}"])
+        " | ".intercalate (acc ++ [s!"final {" ".intercalate p1} ; {" ".intercalate p2} ; {" ".intercalate px} txn={if s2.txnOk then "ok" else "MISMATCH"}"])
 
 end SquidModel.Rock.Crash
